@@ -7,30 +7,38 @@
 (* spec action of its call: same transaction, same reply, same completion of   *)
 (* the call, and the dictionary read back from the actor after the transaction *)
 (* must equal the spec's.  The first record of a trace is the dictionary found *)
-(* when recording started (configuration as a variable, as in Importer.tla).   *)
+(* when recording started (configuration as a variable, as in Importer.tla);   *)
+(* it is loaded by the first step (TLoad).  Clients, RawKeys (the key universe *)
+(* of the batch) and NTraces are written into the cfg by the driver, so that   *)
+(* the initial-state predicate never touches the trace file (TLC re-parses it  *)
+(* on every reference while computing initial states).                         *)
 EXTENDS KeyValueStore, IOUtils
 
+CONSTANT NTraces
 Traces == JsonDeserialize(IOEnv.TRACE_FILE)
 VARIABLES tid, l
 tvars == <<vars, tid, l>>
 Tr  == Traces[tid]
 Rec == Tr[l]
 
-ToSet(seq) == {seq[i] : i \in DOMAIN seq}
-TrClients == UNION {ToSet(Traces[t][1].clients) : t \in DOMAIN Traces}
-TrKeys    == UNION {ToSet(Traces[t][1].keys) : t \in DOMAIN Traces}
 TrNone    == {}
 \* every record lists every key of the universe (absent ones explicitly)
 StoreOf(obj) == [k \in AllKeys |-> obj[k]]
 
-TraceInit == tid \in DOMAIN Traces /\ l = 2 /\ InitWith(StoreOf(Traces[tid][1].store))
+TraceInit == tid \in 1..NTraces /\ l = 1 /\ Init
+\* InitWith(dictionary found when recording started), as a step
+TLoad ==
+  /\ l = 1 /\ l' = 2 /\ UNCHANGED <<tid, pc, loc, got, last, deliveredAll, dup, lost, written, owners, built>>
+  /\ store' = StoreOf(Tr[1].store)
+  /\ evIds' = IF store'[EvKey].t = "list" THEN [i \in 1..Len(store'[EvKey].l) |-> i] ELSE <<>>
+  /\ pushed' = Len(evIds')
 
 RedAny(c, R) ==
   \/ Idle(c) /\ RedStart(c, R.loc.d, R.loc.m)
   \/ RedPmInit(c) \/ RedPmPut(c) \/ RedPnGrab(c) \/ RedPnInit(c) \/ RedPnPut(c)
 
 TStep ==
-  /\ l <= Len(Tr)
+  /\ l >= 2 /\ l <= Len(Tr)
   /\ LET R == Rec IN
      /\ \/ R.op = "set"    /\ Set(R.c, R.key, R.arg.v)
         \/ R.op = "get"    /\ Get(R.c, R.key)
@@ -55,6 +63,6 @@ TStep ==
      /\ store' = StoreOf(R.store)
   /\ l' = l + 1 /\ UNCHANGED tid
 
-TraceSpec == TraceInit /\ [][TStep]_tvars
+TraceSpec == TraceInit /\ [][TLoad \/ TStep]_tvars
 Accept == PrintT(<<"AT", tid, l, Len(Tr) + 1>>)
 =============================================================================
